@@ -13,6 +13,14 @@
 (*    "xff"           (one byte 0xFF: invalid UTF-8)                       *)
 (*    "fffd" = U+FFFD (replacement character, 3 bytes; appears in replies) *)
 (*    "bs" = backslash, "tab", "nl" (one byte each)                        *)
+(*  letters whose case mapping CHANGES the encoded length (a result built  *)
+(*  by skipping len(upper) instead of len(first) bytes is wrong for them):  *)
+(*    "dli" = U+0131 dotless i (lower, 2 bytes)  -> upper "I" (1 byte)      *)
+(*    "ls"  = U+017F long s    (lower, 2 bytes)  -> upper "S" (1 byte)      *)
+(*    "tua" = U+0250 turned a  (lower, 2 bytes) <-> "TUA" U+2C6F (3 bytes)  *)
+(*    "ast" = U+2C65 a-stroke  (lower, 3 bytes) <-> "AST" U+023A (2 bytes)  *)
+(*    "kel" = U+212A Kelvin    (upper, 3 bytes)  -> lower "k" (1 byte)      *)
+(*  Up/Lo are therefore not inverse of each other: Lo(Up("dli")) = "i".    *)
 (* The alphabet separates byte-indexing from rune-indexing: the byte model *)
 (* (Bytes/Decode/Tok below) gives every token its byte length, and a lone  *)
 (* byte of a multi-byte token is not a token ("bad").                      *)
@@ -35,7 +43,7 @@
 (***************************************************************************)
 EXTENDS Integers, Sequences, FiniteSets, TLC, Json
 
-CONSTANTS ExportedImpl    \* "rune" (code as it is) | "byte" (before fix d879be0)
+CONSTANTS ExportedImpl    \* "rune" (code as it is) | "byte" (before fix d879be0) | "upsize" (skips len(upper) bytes)
 
 VARIABLES fn, args, phase, reply
 vars == <<fn, args, phase, reply>>
@@ -62,17 +70,24 @@ UpperA == {UpperSeq[i] : i \in 1..26}
 Digits == {"0","1","2","3","4","5","6","7","8","9"}
 Pos(seq, x) == CHOOSE i \in DOMAIN seq : seq[i] = x
 
-IsLowerRune(t) == t \in LowerA \cup {"ee"}
-IsUpperRune(t) == t \in UpperA \cup {"EE"}
+IsLowerRune(t) == t \in LowerA \cup {"ee", "dli", "ls", "tua", "ast"}
+IsUpperRune(t) == t \in UpperA \cup {"EE", "TUA", "AST", "kel"}
 IsLetterRune(t) == IsLowerRune(t) \/ IsUpperRune(t) \/ t = "zh"
 IsSpaceRune(t) == t \in {" ", "tab", "nl"}
 IsInvalid(t) == t = "xff"
 IsSep(t) == t \in {"_", "-", " ", "tab", "nl"}   \* word separators of the case converters (incl. white space)
 IsWordRune(t) == IsLetterRune(t) \/ t \in Digits \/ IsSep(t)
-ByteLen(t) == CASE t \in {"ee", "EE"} -> 2 [] t \in {"zh", "fffd"} -> 3 [] OTHER -> 1
+ByteLen(t) == CASE t \in {"ee", "EE", "dli", "ls", "tua", "AST"} -> 2
+                [] t \in {"zh", "fffd", "TUA", "ast", "kel"} -> 3
+                [] OTHER -> 1
 
-Up(t) == IF t \in LowerA THEN UpperSeq[Pos(LowerSeq, t)] ELSE IF t = "ee" THEN "EE" ELSE t
-Lo(t) == IF t \in UpperA THEN LowerSeq[Pos(UpperSeq, t)] ELSE IF t = "EE" THEN "ee" ELSE t
+\* unicode.ToUpper / unicode.ToLower
+Up(t) == CASE t \in LowerA -> UpperSeq[Pos(LowerSeq, t)]
+           [] t = "ee" -> "EE" [] t = "dli" -> "I" [] t = "ls" -> "S" [] t = "tua" -> "TUA" [] t = "ast" -> "AST"
+           [] OTHER -> t
+Lo(t) == CASE t \in UpperA -> LowerSeq[Pos(UpperSeq, t)]
+           [] t = "EE" -> "ee" [] t = "TUA" -> "tua" [] t = "AST" -> "ast" [] t = "kel" -> "k"
+           [] OTHER -> t
 \* strings.ToUpper/ToLower go through strings.Map: an invalid byte comes out as U+FFFD
 UpS(t) == IF IsInvalid(t) THEN "fffd" ELSE Up(t)
 LoS(t) == IF IsInvalid(t) THEN "fffd" ELSE Lo(t)
@@ -311,7 +326,8 @@ Expect(f, a) ==
 \* shape invariants for "behave as named" (only what the names safely imply; valid UTF-8 inputs only)
 RECURSIVE StripSeps(_)
 StripSeps(s) == IF s = <<>> THEN <<>> ELSE (IF IsSep(Head(s)) THEN <<>> ELSE <<Head(s)>>) \o StripSeps(Tail(s))
-Skeleton(s) == MapSeq(Lo, StripSeps(s))
+CaseFold(t) == Lo(Up(t))        \* equal up to case: long s ~ S ~ s, dotless i ~ I ~ i, Kelvin ~ k
+Skeleton(s) == MapSeq(CaseFold, StripSeps(s))
 AllLowerLetters(s) == \A i \in DOMAIN s : IsLowerRune(s[i])
 TwoLowerWords(s) == \E i \in 2..(Len(s) - 1) : /\ IsSep(s[i])
                                                 /\ AllLowerLetters(Take(s, i - 1)) /\ AllLowerLetters(Drop(s, i))
@@ -371,10 +387,12 @@ ImplExported(s) ==
   LET bs == Bytes(s) IN
   IF bs = <<>> THEN <<>>
   ELSE IF Tok(BytesToUpper(bs)) \in Initialisms THEN Tok(BytesToUpper(bs))
-  ELSE IF ExportedImpl = "rune"
+  ELSE IF ExportedImpl \in {"rune", "upsize"}
        THEN LET d == Decode(bs) IN
             IF d.r = RuneError /\ d.size <= 1 THEN s
-            ELSE Tok(TokBytes(Up(d.r)) \o Drop(bs, d.size))
+            ELSE IF ExportedImpl = "rune" THEN Tok(TokBytes(Up(d.r)) \o Drop(bs, d.size))
+            \* seeded C16-r3m1: one buffer, append upper, then s[len(buf):] (skips the UPPER rune's size)
+            ELSE Tok(TokBytes(Up(d.r)) \o Drop(bs, ByteLen(Up(d.r))))
        ELSE Tok(BytesToUpper(Take(bs, 1)) \o Drop(bs, 1))      \* strings.ToUpper(s[0:1]) + s[1:]
 
 \* rune(s[0]) of the old code reads the first BYTE as a Latin-1 code point
@@ -387,7 +405,7 @@ Latin1Class(b) == CASE b[2] = 1 /\ ByteLen(b[1]) = 1 /\ ~IsInvalid(b[1]) ->
 \* functions.go:111-120
 ImplFirstIsLower(s) ==
   LET bs == Bytes(s) IN
-  IF ExportedImpl = "rune"
+  IF ExportedImpl \in {"rune", "upsize"}
   THEN IF Len(bs) = 0 THEN B(FALSE)
        ELSE LET d == Decode(bs) IN B(d.r # RuneError /\ IsLowerRune(d.r))
   ELSE IF Len(bs) = 0 THEN Err                                    \* s[0] on "": index panic, recovered
